@@ -28,13 +28,13 @@ RULES = {
 COMMON_DEATH = {"crash", "fuel"}
 CONF = {
     "C01": dict(kinds={"accept", "consumed", "fn"} | COMMON_DEATH,
-                quick=[("core", {}, 1.0)], thorough=[("core", {}, 1.0), ("errors", {}, 0.5), ("fields", {}, 0.5), ("unicode", {"unicode_heavy": True}, 0.3)]),
+                quick=[("core", {}, 0.8), ("unicode", {"unicode_heavy": True}, 0.4)], thorough=[("core", {}, 1.0), ("errors", {}, 0.5), ("fields", {}, 0.5), ("unicode", {"unicode_heavy": True}, 0.5)]),
     "C02": dict(kinds={"tree", "substring"},
-                quick=[("fields", {}, 0.7), ("dupfields", {}, 0.7)], thorough=[("fields", {}, 1.0), ("dupfields", {}, 1.0), ("core", {}, 1.0), ("include", {}, 0.3)]),
+                quick=[("fields", {}, 0.6), ("dupfields", {}, 0.6), ("userfn", {}, 0.4)], thorough=[("fields", {}, 1.0), ("dupfields", {}, 1.0), ("core", {}, 1.0), ("include", {}, 0.3), ("userfn", {}, 0.5), ("unicode", {"unicode_heavy": True}, 0.3)]),
     "C04": dict(kinds={"panic", "crash", "boundary", "substring"},
                 quick=[("unicode", {"unicode_heavy": True}, 1.0)], thorough=[("unicode", {"unicode_heavy": True}, 1.0), ("userfn", {"unicode_heavy": True}, 0.3)]),
     "C05": dict(kinds={"accept", "consumed", "tree", "variant"} | COMMON_DEATH,
-                quick=[("memo", {"memo_variants": True, "grammar_scale": 0.4}, 1.0)],
+                quick=[("memo", {"memo_variants": True, "grammar_scale": 0.4}, 1.0), ("userfn", {"memo_variants": True, "grammar_scale": 0.2}, 1.0)],
                 thorough=[("memo", {"memo_variants": True, "grammar_scale": 0.4}, 1.0), ("userfn", {"memo_variants": True, "grammar_scale": 0.15}, 1.0)]),
     "C06": dict(kinds={"memo_bound"},
                 quick=[("memofail", {}, 1.0)], thorough=[("memofail", {}, 1.0), ("memo", {}, 0.5)]),
@@ -204,14 +204,14 @@ def check_C06(tier, seed):
             agg_checked += 1
             bound = nmemo * (c["len"] + 1)
             if evals > bound:
-                out.violation("memo_aggregate:family%d" % (u["base"] % 5), "fully memoized grammar performed %d body evaluations on a %d-byte input (bound: %d rules x (len+1) = %d)" % (evals, c["len"], nmemo, bound),
+                out.violation("memo_aggregate:family%d" % (u["base"] % families.NFAM), "fully memoized grammar performed %d body evaluations on a %d-byte input (bound: %d rules x (len+1) = %d)" % (evals, c["len"], nmemo, bound),
                               {"grammar_text": u["text"], "rule": c["rule"], "input": c["input"], "observed": evals, "expected": "<= %d" % bound})
         # growth of the logical step count over the input family: at most linear (ratio against doubling)
         pts = [(n, byinput[i]["facts"].get("steps_impl")) for (i, n) in growth if i in byinput and byinput[i]["facts"].get("steps_impl")]
         for (n1, s1), (n2, s2) in zip(pts, pts[1:]):
             growth_checked += 1
             if s2 > (n2 / n1) * s1 * 1.6 + 200:
-                out.violation("memo_growth:family%d" % (u["base"] % 5), "step count grows faster than linearly on failing inputs of a fully memoized grammar: n=%d -> %d steps, n=%d -> %d steps" % (n1, s1, n2, s2),
+                out.violation("memo_growth:family%d" % (u["base"] % families.NFAM), "step count grows faster than linearly on failing inputs of a fully memoized grammar: n=%d -> %d steps, n=%d -> %d steps" % (n1, s1, n2, s2),
                               {"grammar_text": u["text"], "points": pts})
     out.coverage["families"] = {"grammars": len(s.get("case_facts", [])), "aggregate_bounds_checked": agg_checked, "growth_ratios_checked": growth_checked,
                                 "cases": s["stats"]["cases"]}
